@@ -155,10 +155,29 @@ func (x *Exec) step(fr *Frame, ins ssa.Instruction, st *State) {
 			return
 		}
 		fr.defers = append(fr.defers, in)
+		if fr.deferGuard == nil {
+			fr.deferGuard = map[*ssa.Defer]*Term{}
+		}
+		fr.deferGuard[in] = st.guard
 	case *ssa.RunDefers:
 		for i := len(fr.defers) - 1; i >= 0; i-- {
 			d := fr.defers[i]
-			x.call(fr, d, &d.Call, st)
+			// the deferred call runs only on paths that executed the defer statement
+			reg := fr.deferGuard[d]
+			sub := st.clone()
+			sub.guard = ts.And(st.guard, reg)
+			if sub.guard.isFalse() {
+				continue
+			}
+			x.call(fr, d, &d.Call, sub)
+			other := st.clone()
+			other.guard = ts.And(st.guard, ts.Not(reg))
+			if other.guard.isFalse() {
+				st.heap, st.alloc, st.guard = sub.heap, sub.alloc, sub.guard
+				continue
+			}
+			m := x.mergeStatesRel([]*Term{sub.guard, other.guard}, []*Term{reg, ts.Not(reg)}, []*State{sub, other})
+			st.heap, st.alloc, st.guard = m.heap, m.alloc, m.guard
 		}
 	case *ssa.Go:
 		unsup("go statement")
